@@ -90,3 +90,11 @@ package migrator
 //@   in migrator.(Migrator).FullDataTypeOf
 //@   min-sites 1
 //@   cover reached-with-an-empty-default-text: field.DefaultValue == "" [C20]
+
+//@ # Foreign keys are added to an existing table only when the configuration wants foreign keys at all: the pass that
+//@ # adds missing ones asks the same two switches as CreateTable does.
+//@ site existing-tables-honour-the-foreign-key-switch
+//@   match load Config.DisableForeignKeyConstraintWhenMigrating
+//@   in migrator.(Migrator).AutoMigrate$1
+//@   min-sites 1
+//@   assert switch-consulted: true [C20]
